@@ -27,11 +27,11 @@ PROP = "C09"
 
 
 OPTS = dict(dup_rate=0.3, rename_onto_rate=0.45, reassign_rate=0.35, setter_rate=0.15, via_rate=0.2, lookup_rate=0.55,
-            multi_rate=0.34)
+            lookup_pre=0.08, save_pre=0.04, multi_rate=0.34)
 
 
 def generate(rng, tier):
-    groups, maxops = (170, 14) if tier == "quick" else (4000, 30)
+    groups, maxops = (450, 14) if tier == "quick" else (4000, 30)
     for _ in range(groups):
         for c in lc.gen_group(rng, maxops, uni_weight=2.5, incoherent_rate=0.0, opts=OPTS):
             yield c
